@@ -204,7 +204,7 @@ bool qhashtbl_put(qhashtbl_t *tbl, const char *name, const void *data,
 
     // get hash integer
     uint32_t hash = qhashmurmur3_32(name, strlen(name));
-    int idx = hash % tbl->range;
+    size_t idx = hash % tbl->range;
 
     qhashtbl_lock(tbl);
 
@@ -367,7 +367,7 @@ void *qhashtbl_get(qhashtbl_t *tbl, const char *name, size_t *size, bool newmem)
     }
 
     uint32_t hash = qhashmurmur3_32(name, strlen(name));
-    int idx = hash % tbl->range;
+    size_t idx = hash % tbl->range;
 
     qhashtbl_lock(tbl);
 
@@ -468,7 +468,7 @@ bool qhashtbl_remove(qhashtbl_t *tbl, const char *name) {
     qhashtbl_lock(tbl);
 
     uint32_t hash = qhashmurmur3_32(name, strlen(name));
-    int idx = hash % tbl->range;
+    size_t idx = hash % tbl->range;
 
     // find key
     bool found = false;
@@ -552,7 +552,7 @@ bool qhashtbl_getnext(qhashtbl_t *tbl, qhashtbl_obj_t *obj, const bool newmem) {
     bool found = false;
 
     qhashtbl_obj_t *cursor = NULL;
-    int idx = 0;
+    size_t idx = 0;
     if (obj->name != NULL) {
         idx = (obj->hash % tbl->range) + 1;
         // follow the link only if it still is in the chain, it could have
@@ -633,7 +633,7 @@ size_t qhashtbl_size(qhashtbl_t *tbl) {
  */
 void qhashtbl_clear(qhashtbl_t *tbl) {
     qhashtbl_lock(tbl);
-    int idx;
+    size_t idx;
     for (idx = 0; idx < tbl->range && tbl->num > 0; idx++) {
         if (tbl->slots[idx] == NULL)
             continue;
